@@ -199,4 +199,90 @@ theorem mergeE_of_treeInv {T d : Nat} (hT : legalThreshold T = true) {l : MetaSl
   simp only [arrayMetaDataSlabPrefixSize, List.length_nil, Nat.mul_zero, Nat.add_zero] at hsz
   omega
 
+/-! ### concrete states outside the invariant: the old model is total, Go panics -/
+section MetaExamples
+
+def h (i n : Nat) : Hdr := ⟨⟨1, i⟩, 221, n⟩
+/-- an index slab with ONE child -/
+def small : MetaSlab Unit := ⟨⟨⟨1, 10⟩, 26, 2⟩, [h 11 2], [2], [()], false⟩
+/-- an index slab with THREE children -/
+def big : MetaSlab Unit := ⟨⟨⟨1, 20⟩, 54, 6⟩, [h 21 2, h 22 2, h 23 2], [2, 4, 6], [(), (), ()], false⟩
+/-- an index slab without children and count sums (only an emptied root can look like this) -/
+def empty : MetaSlab Unit := ⟨⟨⟨1, 30⟩, 12, 0⟩, [], [], [], false⟩
+
+/-- `small.LendToRight(big)`: Go computes `moveCount = 1 - 2 = -1` and panics in `lendToRight` … -/
+example : MetaSlab.lendToRightE small big = .error .goPanic :=
+  (lendToRightE_panics_iff small big).mpr (Or.inl (by decide))
+/-- … the old model keeps the one child on the left and writes a header size for TWO children -/
+example : (MetaSlab.lendToRight small big).1.childHdrs.length = 1 ∧
+    (MetaSlab.lendToRight small big).1.hdr.size = arrayMetaDataSlabPrefixSize + 2 * arraySlabHeaderSize := by decide
+
+/-- `big.BorrowFromRight(small)`: `moveCount = 2 - 3 = -1`, Go panics at `right[:count]` … -/
+example : MetaSlab.borrowFromRightE big small = .error .goPanic := borrowFromRightE_panics big small (by decide)
+/-- … the old model moves nothing and writes a header size for TWO children on a slab that has three -/
+example : (MetaSlab.borrowFromRight big small).1.childHdrs.length = 3 ∧
+    (MetaSlab.borrowFromRight big small).1.hdr.size = arrayMetaDataSlabPrefixSize + 2 * arraySlabHeaderSize := by decide
+
+/-- `empty.Merge(big)`: `a.childrenCountSum[len-1]` is index −1, Go panics … -/
+example : MetaSlab.mergeE empty big = .error .goPanic := (mergeE_panics_iff empty big).mpr rfl
+/-- … the old model takes 0 as the base -/
+example : (MetaSlab.merge empty big).countSum = [2, 4, 6] := by decide
+
+/-- and the good direction: `big.LendToRight(small)` and `small.BorrowFromRight(big)` are the model's -/
+example : MetaSlab.lendToRightE big small = .ok (MetaSlab.lendToRight big small) :=
+  lendToRightE_eq big small (by decide) (by decide)
+example : MetaSlab.borrowFromRightE small big = .ok (MetaSlab.borrowFromRight small big) :=
+  borrowFromRightE_eq small big (by decide) (by decide)
+example : MetaSlab.mergeE small big = .ok (MetaSlab.merge small big) := mergeE_eq small big (by decide)
+
+end MetaExamples
+
+/-! ## the read-only iterator -/
+section IterExamples
+open Atree.Example
+
+/-- on the two-level example array (`ArrInv` holds: `Example.arr4_inv`) nothing fails and the result is
+    the old model's, which is `toList` -/
+example : arr4.iterReadOnlyE = .ok arr4.iterReadOnly := by rfl
+example : arr4.iterReadOnlyE = .ok arr4.toList := by rfl
+
+/-- the left leaf points to a slab that does not exist (`next = 1.9`) -/
+def leftBadNext : DataSlab := { Example.left with next := ⟨1, 9⟩ }
+def arrBadNext : Arr := ⟨1, ofMeta { rootSlab with children := [ofData leftBadNext, ofData Example.right] }, 0⟩
+/-- Go: `SlabNotFoundError` after the first two elements; the old model: those two elements, no error -/
+example : arrBadNext.iterReadOnlyE = .error .slabNotFound := by rfl
+example : arrBadNext.iterReadOnly = [elem 0, elem 1] := by rfl
+
+/-- the right leaf is empty (the index slab still counts four elements) -/
+def rightEmpty : DataSlab := { Example.right with elems := [] }
+def arrEmptyLeaf : Arr := ⟨1, ofMeta { rootSlab with children := [ofData Example.left, ofData rightEmpty] }, 0⟩
+/-- Go: `SlabDataError("data slab contains 0 elements, expect more")`; the old model: the prefix -/
+example : arrEmptyLeaf.iterReadOnlyE = .error .slabData := by rfl
+example : arrEmptyLeaf.iterReadOnly = [elem 0, elem 1] := by rfl
+
+/-- a root index slab that claims four elements and has no children -/
+def arrNoChildren : Arr := ⟨1, ofMeta { rootSlab with children := [], childHdrs := [], countSum := [] }, 0⟩
+/-- Go: `slab.childrenHeaders[0]` panics in `firstArrayDataSlab`; the old model: the empty list -/
+example : arrNoChildren.iterReadOnlyE = .error .goPanic := by rfl
+example : arrNoChildren.iterReadOnly = [] := by rfl
+
+/-- a CYCLE: the right leaf points back to the left one, the root claims ten elements.  Go follows the
+    links until `remainingCount` is used up (ten elements, no error); the old model's fuel (number
+    of leaves + 1) stops after three visits. -/
+def rightCycle : DataSlab := { Example.right with next := ⟨1, 2⟩ }
+def arrCycle : Arr :=
+  ⟨1, ofMeta { rootSlab with hdr := { rootSlab.hdr with count := 10 },
+                             children := [ofData Example.left, ofData rightCycle] }, 0⟩
+example : arrCycle.iterReadOnlyE =
+    .ok [elem 0, elem 1, elem 2, elem 3, elem 0, elem 1, elem 2, elem 3, elem 0, elem 1] := by rfl
+example : arrCycle.iterReadOnly = [elem 0, elem 1, elem 2, elem 3, elem 0, elem 1] := by decide
+
+/-- the count is larger than what the chain holds and the chain ENDS (`next` undefined): Go's `Next`
+    returns `nil, nil` – the iteration ends early WITHOUT an error; both models agree -/
+def arrShort : Arr := ⟨1, ofMeta { rootSlab with hdr := { rootSlab.hdr with count := 9 } }, 0⟩
+example : arrShort.iterReadOnlyE = .ok [elem 0, elem 1, elem 2, elem 3] := by rfl
+example : arrShort.iterReadOnly = [elem 0, elem 1, elem 2, elem 3] := by rfl
+
+end IterExamples
+
 end Atree.C01P
